@@ -117,10 +117,12 @@ Section Order.
   Variable step : U -> st -> req * U.
   Variable enter : blk -> U -> U.
   Variable e : env.
-  Hypothesis Hneutral : forall u s, neutral (fst (step u s)).
+  Variable G : U -> Prop.     (* an invariant of the program's own state under which it makes only neutral requests *)
+  Hypothesis Hneutral : forall u s, G u -> neutral (fst (step u s)) /\ G (snd (step u s)).
+  Hypothesis Henter : forall b u, G u -> G (enter b u).
 
-  Lemma exec_all_advances fuel rules has_end u s :
-    fin_R U (advances e) s (exec_all U step enter e fuel rules has_end u s).
+  Lemma exec_all_advances fuel rules has_end u s : G u ->
+    fin_R U (advances e) G s (exec_all U step enter e fuel rules has_end u s).
   Proof.
     apply (exec_all_lift U step enter e (advances e) neutral).
     - apply advances_refl.
@@ -132,10 +134,11 @@ Section Order.
     - intros l s0. apply (advances_quiet e _ _ []); reflexivity.
     - intros o s0. apply (advances_quiet e _ _ []); reflexivity.
     - exact Hneutral.
+    - exact Henter.
   Qed.
 
-  Lemma main_loop_advances fuel n rules flags u s :
-    lres_R U (advances e) s (main_loop U step enter e fuel n rules flags u s).
+  Lemma main_loop_advances fuel n rules flags u s : G u ->
+    lres_R U (advances e) G s (main_loop U step enter e fuel n rules flags u s).
   Proof.
     apply (main_loop_lift U step enter e (advances e) neutral).
     - apply advances_refl.
@@ -146,6 +149,18 @@ Section Order.
     - apply drop_file_advances.
     - intros l s0. apply (advances_quiet e _ _ []); reflexivity.
     - intros o s0. apply (advances_quiet e _ _ []); reflexivity.
+    - exact Hneutral.
+    - exact Henter.
+  Qed.
+
+  Lemma run_advances fuel u s o u' s' : G u ->
+    run U step e fuel u s = ROk o u' s' -> advances e s s' /\ G u'.
+  Proof.
+    apply (run_lift U step e (advances e) neutral).
+    - apply advances_refl.
+    - apply advances_trans.
+    - intros r s0 s1 HQ HP. eapply prim_advances; eassumption.
+    - intros k s0. apply (advances_quiet e _ _ [EvExit k]); reflexivity.
     - exact Hneutral.
   Qed.
 
@@ -429,9 +444,9 @@ Section Counters.
   Variable e : env.
 
   Lemma exec_all_tracks fuel rules has_end u s :
-    fin_R U (tracks e) s (exec_all U step enter e fuel rules has_end u s).
+    fin_R U (tracks e) (fun _ => True) s (exec_all U step enter e fuel rules has_end u s).
   Proof.
-    apply (exec_all_lift U step enter e (tracks e) (fun _ => True)).
+    apply (exec_all_lift U step enter e (tracks e) (fun _ => True)); try (intros; exact I).
     - apply tracks_refl.
     - apply tracks_trans.
     - intros r s0 s' _ HP. eapply prim_tracks; exact HP.
@@ -440,16 +455,17 @@ Section Counters.
     - apply drop_file_tracks.
     - intros l s0. apply tracks_same; reflexivity.
     - intros o s0. apply tracks_same; reflexivity.
-    - intros; exact I.
+    - intros; split; exact I.
   Qed.
 
   Lemma run_tracks fuel u s o u' s' : run U step e fuel u s = ROk o u' s' -> tracks e s s'.
   Proof.
-    apply (run_lift U step e (tracks e) (fun _ => True)).
-    - apply tracks_refl.
-    - apply tracks_trans.
+    intros H.
+    apply (run_lift U step e (tracks e) (fun _ => True) (tracks_refl e) (tracks_trans e)) with (G := fun _ => True) in H.
+    - tauto.
     - intros r s0 s1 _ HP. eapply prim_tracks; exact HP.
     - intros n s0. apply (tracks_one e _ _ (EvExit n)); reflexivity.
-    - intros; exact I.
+    - intros; split; exact I.
+    - exact I.
   Qed.
 End Counters.
